@@ -78,10 +78,12 @@ class UpdateBlock(Contract):
         self.params_ = [Obj("param", {"grad": None, "idx": k}) for k in range(len(self.shapes))]
         base = Obj("base", {"alpha": self.alpha, "pass_y_": False})
         if self.engine == "torch":
-            st.env.update({"self": Obj("PytorchEngine", {"base": base, "predictor_model": Abstract("pmodel")}),
+            # the engine object may carry values cached when it was built (an earlier alpha): only base.alpha is the estimator's current parameter
+            st.env.update({"self": Obj("PytorchEngine", {"base": base, "predictor_model": Abstract("pmodel"), "alpha": Real("alpha_cached_when_the_engine_was_built")}),
                            "dW_LA": PyList(self.A), "dW_LP": PyList(self.P)})
         else:
-            st.env.update({"self": Obj("TensorflowEngine", {"base": base, "predictor_model": Obj("model", {"trainable_variables": Abstract("pvars")}),
+            st.env.update({"self": Obj("TensorflowEngine", {"base": base, "alpha": Real("alpha_cached_when_the_engine_was_built"),
+                                                            "predictor_model": Obj("model", {"trainable_variables": Abstract("pvars")}),
                                                             "adversary_model": Obj("model", {"trainable_variables": Abstract("avars")}),
                                                             "predictor_optimizer": Abstract("popt"), "adversary_optimizer": Abstract("aopt")}),
                            "tape": Abstract("tape"), "LP": Abstract("loss", name="LP"), "LA": Abstract("loss", name="LA")})
